@@ -400,6 +400,66 @@ def run_views(ctx, n):
         fin = gen.inst_ns(fc.get_current_instant())
         if fin != t0 + k * step:
             ctx.V("C19:zoned-clock-reads-per-call", f"after {k} ZonedClock getter calls the wrapped clock (auto-advance {step} ns) stands at {fin}; one read per call gives {t0 + k * step}", {"kind": "view", "zone": z.id, "auto_advance": step}, fin, t0 + k * step)
+    # re-zoning a ZonedClock: the result renders in the zone OBJECT it was given (another object with the same id is another zone)
+    from pyoda_time.testing.time_zones import SingleTransitionDateTimeZone
+    from pyoda_time import Instant as _I
+    for it in range(max(10, n // 20)):
+        nsv = rng.randint(-10**18, 4 * 10**18)
+        fc = FakeClock(gen.ns_inst(nsv), Duration.zero)
+        tr = gen.ns_inst(nsv + rng.randint(-10**15, 10**15))
+        same_a = SingleTransitionDateTimeZone(tr, rng.choice([1, 2, -3]), rng.choice([3, 5, -1]))
+        same_b = SingleTransitionDateTimeZone(gen.ns_inst(nsv + rng.randint(-10**15, 10**15)), rng.choice([-5, 7, 0]), rng.choice([-4, 9, 11]))
+        z1 = rng.choice([tz[rng.choice(ids)], same_a, DateTimeZone.utc]); cal = rng.choice([gen.ISO, gen.ISO, rng.choice(cals)])
+        lo, hi = gen.cal_range(cal.id)
+        if not (lo + 3) * DAY < nsv < (hi - 3) * DAY: cal = gen.ISO
+        zc1 = fc.in_zone(z1, cal)
+        for z2, c2 in ((same_b, cal), (same_a, cal), (tz[rng.choice(ids)], cal), (z1, gen.ISO), (DateTimeZone.for_offset(Offset.from_hours(rng.randint(-12, 12))), cal)):
+            case = {"kind": "view", "zone": z2.id, "cal": c2.id, "ns": nsv, "rezoned_from": z1.id}
+            ctx.ev(); ctx.counters["zoned_views"] += 1; ctx.key(("rezone", z1.id == z2.id, z1 is z2, c2 is cal))
+            try:
+                zc2 = zc1.in_zone(z2, c2)
+                got = zc2.get_current_zoned_date_time(); want = gen.ns_inst(nsv).in_zone(z2, c2)
+                if zc2.zone is not z2 or zc2.calendar is not c2 or got != want or got.offset != z2.get_utc_offset(gen.ns_inst(nsv)) or zc2.get_current_local_date_time() != want.local_date_time:
+                    ctx.V("C19:zoned-clock-rezoned", f"ZonedClock({z1.id}).in_zone(<zone object with id {z2.id!r}>, {c2.id}) reports {got.local_date_time!r} {got.offset.seconds} s; the instant rendered in the zone it was given is {want.local_date_time!r} {want.offset.seconds} s", case)
+            except Exception as e:  # noqa: BLE001
+                ctx.exc(e); ctx.V(f"C19:zoned-clock-raised:{type(e).__name__}", f"re-zoning raised {e!r}", case, repr(e))
+    # one ZonedClock shared by threads while the wrapped clock is being advanced: every result is the rendering of the instant THAT call read
+    import sys
+    import threading
+    from pyoda_time import IClock
+
+    class RecordingClock(IClock):
+        def __init__(self, inner): self.inner = inner; self.tl = threading.local()
+        def get_current_instant(self):
+            v = self.inner.get_current_instant(); self.tl.last = v; return v
+    old_si = sys.getswitchinterval()
+    try:
+        sys.setswitchinterval(1e-6)
+        for trial_i in range(3 if ctx.tier == "quick" else 40):
+            z = tz[rng.choice(["Europe/London", "America/New_York", "Asia/Kolkata", rng.choice(ids)])]
+            fc = FakeClock(gen.ns_inst(rng.randint(0, 2 * 10**18)), Duration.zero); rc = RecordingClock(fc); zc = ZonedClock(rc, z, gen.ISO)
+            bad = []; stop = threading.Event(); reads = [0]
+
+            def reader():
+                for _ in range(150):
+                    r = zc.get_current_zoned_date_time()
+                    mine = rc.tl.last
+                    reads[0] += 1
+                    if r.to_instant() != mine or r.offset != z.get_utc_offset(mine):
+                        bad.append((gen.inst_ns(r.to_instant()), gen.inst_ns(mine))); return
+
+            def advancer():
+                while not stop.is_set():
+                    fc.advance_seconds(1801)
+            ths = [threading.Thread(target=reader) for _ in range(6)]; adv = threading.Thread(target=advancer)
+            adv.start(); [t.start() for t in ths]; [t.join(300) for t in ths]; stop.set(); adv.join(60)
+            ctx.ev(); ctx.counters["zoned_clock_shared_reads"] += reads[0]; ctx.key(("zoned-shared", trial_i))
+            if bad:
+                ctx.V("C19:zoned-clock-shared-stale", f"a ZonedClock({z.id}) shared by 6 reading threads while the wrapped clock is advanced returned the rendering of instant {bad[0][0]} to a call whose own read of the wrapped clock gave {bad[0][1]}",
+                      {"kind": "view", "zone": z.id, "shared": True}, bad[0][0], bad[0][1])
+                break
+    finally:
+        sys.setswitchinterval(old_si)
     sc = SystemClock.instance
     # the operating-system time under our control: whatever time.time_ns() says (also before 1970, also off the 100 ns tick grid) is reported exactly
     real_time_ns = time.time_ns
